@@ -1,7 +1,21 @@
 (* C21 — proofs: an invariant of every reachable state, by induction over the history. *)
 From Coq Require Import Arith List Bool Lia.
 Import ListNotations.
-From Cffi Require Import C21.Model.
+From Cffi Require Import C21.Gen C21.Model.
+
+(* regenerated obligation: in direct_from_buffer every failure taken after PyObject_GetBuffer
+   succeeded goes through the label that calls PyBuffer_Release *)
+Lemma frombuf_paths_release :
+  forallb (fun p => implb (snd (fst p)) (snd p)) gen_frombuf_paths = true.
+Proof. vm_compute. reflexivity. Qed.
+
+Lemma no_leak tag : path_leaks tag = false.
+Proof.
+  unfold path_leaks. pose proof frombuf_paths_release as H.
+  destruct (find _ gen_frombuf_paths) as [[[t0 a] r] |] eqn:F; [|reflexivity].
+  apply find_some in F. destruct F as (I & _). rewrite forallb_forall in H. specialize (H _ I).
+  cbn in H. destruct a, r; cbn in *; try reflexivity; discriminate.
+Qed.
 
 (* ------------------------------------------------------------------ the invariant *)
 Definition gcp_good (o : obj) : Prop :=
@@ -806,6 +820,7 @@ Proof.
     destruct (usable s src && addr_free s a) eqn:U; [|exact H]. rewrite andb_true_iff in U.
     destruct U as [U F]. destruct (k (get s src)) eqn:K; try exact H.
     apply frombuf_inv; assumption.
+  - (* OFromBufferFail *) rewrite no_leak, andb_false_r. exact H.
   - (* ONewHandle *)
     destruct (usable s x && addr_free s a) eqn:U; [|exact H]. rewrite andb_true_iff in U.
     destruct U as [U F]. destruct (usable_spec s x U) as (L & A & R).
@@ -895,7 +910,7 @@ Proof. unfold collect. destruct (garbage s G); [apply next_fold | reflexivity]. 
 
 Lemma next_step_le s o : next s <= next (step s o).
 Proof.
-  destruct o; cbn [step];
+  destruct o; cbn [step]; rewrite ?no_leak, ?andb_false_r;
     repeat match goal with
            | |- context [if ?c then _ else _] => destruct c
            | |- context [match k ?x with _ => _ end] => destruct (k x)
@@ -909,7 +924,7 @@ Qed.
 
 Lemma step_mono s o i : i < next s -> mono (get s i) (get (step s o) i).
 Proof.
-  intros L. destruct o; cbn [step];
+  intros L. destruct o; cbn [step]; rewrite ?no_leak, ?andb_false_r;
     repeat match goal with
            | |- context [if ?c then _ else _] => destruct c
            | |- context [match k ?x with _ => _ end] => destruct (k x)
@@ -1234,3 +1249,9 @@ Proof.
   assert (R : s' = run (ops ++ [OCollect G])) by (rewrite run_app; reflexivity).
   rewrite R in *. apply dtor_exactly_once; auto.
 Qed.
+
+(* a from_buffer call that fails leaves the whole object table unchanged: no export, no
+   reference, nothing created (for every error path of direct_from_buffer, by the regenerated
+   obligation [frombuf_paths_release]) *)
+Theorem failed_from_buffer_is_pure s src tag : step s (OFromBufferFail src tag) = s.
+Proof. cbn [step]. rewrite no_leak, andb_false_r. reflexivity. Qed.
